@@ -47,7 +47,7 @@ def n_unit(inputs, unit, n):
     return _classify(lambda: cls.parse(bytes.fromhex(inputs['d'])), MODS)
 
 
-def h_msg(n, first_type, header_only=False):
+def h_msg(n, first_type, header_only=False, keyed=False):
     """whole datagram; the first-payload byte is pinned per instance (sharding, all 256 values are covered
     by the instances: the 12 known types, 0, and one instance for 'any other value')"""
     from symx import core
@@ -61,11 +61,22 @@ def h_msg(n, first_type, header_only=False):
             eng.assume(core.SymBool(z3.And(*[b != k for k in known])))
         elif first_type is not None:
             eng.assume(core.SymBool(b == first_type))
-    return _wrap(_classify(lambda: MODS['message'].Message.parse(d, header_only=header_only), MODS))
+    crypto = None
+    if keyed:
+        # a key context is present (as for every datagram an IKE_SA with keys receives) although the datagram need not carry an SK payload
+        c = MODS['crypto']
+        cipher, integ, prf = _crypto(12)
+        crypto = c.Crypto(cipher, b'e' * 32, integ, b'a' * 32, prf, b'p' * 32)
+    return _wrap(_classify(lambda: MODS['message'].Message.parse(d, header_only=header_only, crypto=crypto), MODS))
 
 
-def n_msg(inputs, n, first_type, header_only=False):
-    return _classify(lambda: MODS['message'].Message.parse(bytes.fromhex(inputs['d']), header_only=header_only), MODS)
+def n_msg(inputs, n, first_type, header_only=False, keyed=False):
+    crypto = None
+    if keyed:
+        c = MODS['crypto']
+        cipher, integ, prf = _crypto(12)
+        crypto = c.Crypto(cipher, b'e' * 32, integ, b'a' * 32, prf, b'p' * 32)
+    return _classify(lambda: MODS['message'].Message.parse(bytes.fromhex(inputs['d']), header_only=header_only, crypto=crypto), MODS)
 
 
 def _crypto(integ_id=12):
@@ -184,6 +195,11 @@ def build_instances(tier):
         for ft in known + [0, 'other']:
             inst.append(Instance(f'Message.parse n={n} first={ft}', h_msg, (n, ft), native=n_msg,
                                  engine_kw={'max_ticks': 400 + 40 * n}))
+    for n in (28, 32):
+        for ft in ((0, 'other', 43) if tier == 'quick' else known + [0, 'other']):
+            if ft == 46:
+                continue
+            inst.append(Instance(f'Message.parse with keys n={n} first={ft}', h_msg, (n, ft, False, True), native=n_msg, engine_kw={'max_ticks': 400 + 40 * n}))
     for ct in (16,):
         for integ in {'quick': (12,), 'thorough': (2, 12, 14)}[tier]:
             for it in known + [0, 'other']:
@@ -234,6 +250,12 @@ def replay_file(path):
         if plain is not None:
             d[-hs:] = integ.compute(sk_a, d[:-hs])
         fn = lambda: m.Message.parse(bytes(d), crypto=crypto)
+    elif name.startswith('Message.parse with keys'):
+        cipher, integ, prf = _crypto(12)
+        crypto = MODS['crypto'].Crypto(cipher, b'e' * 32, integ, b'a' * 32, prf, b'p' * 32)
+        fn = lambda: m.Message.parse(bytes.fromhex(inp['d']), crypto=crypto)
+    elif name.startswith('work is linear'):
+        return common.generic_replay_file(path, lambda: build_instances('quick'), lambda: None)
     elif name.startswith('Message.parse'):
         fn = lambda: m.Message.parse(bytes.fromhex(inp['d']), header_only='header_only' in name)
     else:
